@@ -125,7 +125,8 @@ def _model_value(model, v):
 class Explorer:
     """Runs fn(ctx) once per feasible path."""
 
-    def __init__(self, branch_timeout_ms=3000, check_timeout_ms=20000, max_paths=5000):
+    def __init__(self, branch_timeout_ms=3000, check_timeout_ms=20000, max_paths=5000, max_seconds=600):
+        self.max_seconds = max_seconds
         self.branch_timeout_ms = branch_timeout_ms
         self.check_timeout_ms = check_timeout_ms
         self.max_paths = max_paths
@@ -360,7 +361,11 @@ class Explorer:
         self.work = [[]]
         alg.set_explorer(self)
         try:
+            t_start = time.time()
             while self.work:
+                if time.time() - t_start > self.max_seconds:
+                    self.errors.append({"error": f"time budget of {self.max_seconds}s reached", "remaining": len(self.work)})
+                    break
                 if self.stats["paths"] >= self.max_paths:
                     self.errors.append({"error": "path limit reached", "remaining": len(self.work)})
                     break
